@@ -113,6 +113,10 @@ func ZZ_C02_ExpiryWindow() {
 	zzAccounted(s, "window")
 	zzOnWheel(s, "window")
 	zzViews(s, "window")
+	// the Set was accepted with a deadline far in the future and there is no capacity pressure: its value
+	// must not disappear, however the call interleaves with the expiry of the previous value
+	_, stillThere := s.shards[zzIndex(s, 1)].hashmap[1]
+	vfAssert("window:accepted-value-not-lost", stillThere)
 	if e, ok := s.shards[zzIndex(s, 1)].hashmap[1]; ok {
 		vfAssert("window:resident-value-is-latest", e.value == 101)
 		vfAssert("window:no-notification-for-resident-entry", len(notes) == 0 || notes[len(notes)-1].val != 101)
@@ -222,4 +226,31 @@ func ZZ_C02_PoolStaleUpdate() {
 	vfReach("drained")
 	zzAccounted(s, "pool-stale-update")
 	zzViews(s, "pool-stale-update")
+}
+
+// ZZ_C02_WindowCostUpdate: MaxSize 200 (window of 2): the main region holds nearly everything, a small entry sits
+// in the window and its cost is raised by an overwrite. Eviction runs after every cost increase, wherever the
+// entry is: after the drain the resident cost is within MaxSize again.
+func ZZ_C02_WindowCostUpdate() {
+	var notes []zzNote
+	s := zzThreadedStore(200, &notes)
+	big := vfI64("big")
+	vfAssume(big >= 190)
+	vfAssume(big <= 199)
+	a := vfI64("small")
+	vfAssume(a >= 1)
+	vfAssume(a <= 2)
+	b := vfI64("raised")
+	vfAssume(b >= 1)
+	vfAssume(b <= 10)
+	s.Set(1, 101, big, 0)
+	s.Wait()
+	s.Set(2, 201, a, 0)
+	s.Wait()
+	zzAccounted(s, "before-update")
+	s.Set(2, 202, b, 0)
+	s.Wait()
+	vfReach("drained")
+	zzAccounted(s, "after-update")
+	zzViews(s, "after-update")
 }
